@@ -173,3 +173,111 @@ contract("RotatingBloomFilter.add_alt", contexts=["RotatingBloomFilter"], proper
                    "self._blooms[n0 - 1]._els_added == 1 and sub_reports(self._blooms[n0 - 1], hashes))"),
                   ("reported_afterwards", "exp_reports(self, hashes)"),
                   ("inv", "inv_exp(self)"), ("bounded", "1 <= len(self._blooms) <= self._queue_size")])
+
+
+# ---- export / load of the expanding format (C05, C01, C09): byte-stream model --------------------------------------------
+_XSTRIDE = "(eb_cells(self) + 8)"
+_XREQ = [("inv", "inv_exp(self)"),
+         ("counters_fit_uint64", "0 <= self._added_elements < 2**64 and eb_est(self) < 2**64 and len(self._blooms) < 2**64")]
+_XBEFORE = "old(len(written(file)))"
+_XSUB = ("u64_at(written(file), {base} + smul(q, {S}), self._blooms[q]._els_added) and "
+         "all(written(file)[{base} + smul(q, {S}) + 8 + j] == self._blooms[q]._bloom[j] for j in range(0, eb_cells(self)))")
+contract("ExpandingBloomFilter.export", contexts=["ExpandingBloomFilter", "RotatingBloomFilter"], properties=["C05", "C01", "C09", "C19", "C06"],
+         params={"file": "stream"}, requires=_XREQ, modifies=["file"],
+         ensures=[("appends_every_sub_filter_and_the_footer",
+                   f"len(written(file)) == {_XBEFORE} + smul(len(self._blooms), {_XSTRIDE}) + 28"),
+                  ("earlier_bytes_kept", f"all(written(file)[i] == old(written(file))[i] for i in range(0, {_XBEFORE}))"),
+                  ("documented_layout", f"exp_image(self, written(file), {_XBEFORE})")],
+         loops={0: {"invariant": [
+             ("length", f"len(written(file)) == {_XBEFORE} + smul(_i, {_XSTRIDE})"),
+             ("earlier_bytes_kept", f"all(written(file)[i] == old(written(file))[i] for i in range(0, {_XBEFORE}))"),
+             ("sub_filters_so_far", "all(" + _XSUB.format(base=_XBEFORE, S=_XSTRIDE) + " for q in range(0, _i))")]}})
+
+_XALL = ["ExpandingBloomFilter", "RotatingBloomFilter"]
+contract("ExpandingBloomFilter.__bytes__", contexts=_XALL, properties=["C05", "C01", "C09", "C19", "C06"],
+         returns="bytes", requires=_XREQ, modifies=[],
+         ensures=[("size", f"len(result) == smul(len(self._blooms), {_XSTRIDE}) + 28"),
+                  ("documented_layout", "exp_image(self, result, 0)")])
+
+contract("ExpandingBloomFilter._parse_footer", kind="classmethod", contexts=_XALL, properties=["C05", "C01", "C09", "C06", "C10"],
+         params={"b": "bytes"}, variants=[{"b": "mmap"}], returns="tuple[int,int,int,float]",
+         requires=[("has_footer", "len(b) >= 28")], modifies=[],
+         ensures=[("number_of_sub_filters_field", "result[0] == le_bytes(b, len(b) - 28, 8)"),
+                  ("estimated_elements_field", "result[1] == le_bytes(b, len(b) - 20, 8)"),
+                  ("elements_added_field", "result[2] == le_bytes(b, len(b) - 12, 8)"),
+                  ("rate_field", "result[3] == f32_at(b, len(b) - 4)")])
+
+_XGEOM = ("eb_est(self) >= 1 and 0 < f32(eb_fpr(self)) < 1 and "
+          "bloom_k(eb_est(self), bloom_m(eb_est(self), f32(eb_fpr(self)))) >= 1 and "
+          "bloom_m(eb_est(self), f32(eb_fpr(self))) < 2**53 and "
+          "(eb_fpr(self) < 0.0 or f32(eb_fpr(self)) > 0.0) and 0 <= eb_fpr(self) < 1")
+_XLOADED = ("sub_geo(self, self._blooms[q]) and self._blooms[q]._els_added == le_bytes(b, smul(q, {S}), 8) and "
+            "all(self._blooms[q]._bloom[j] == b[smul(q, {S}) + 8 + j] for j in range(0, eb_cells(self)))")
+contract("ExpandingBloomFilter._parse_blooms", contexts=_XALL, properties=["C05", "C01", "C09", "C06", "C10"],
+         params={"b": "bytes", "size": "int"}, variants=[{"b": "mmap"}],
+         requires=[("geometry_usable", _XGEOM), ("size_not_negative", "size >= 0"),
+                   ("every_sub_filter_present", f"len(b) >= smul(size, {_XSTRIDE})")],
+         modifies=["self._blooms"], rebinds=["self._blooms"],
+         ensures=[("as_many_sub_filters_as_the_footer_says", "len(self._blooms) == size"),
+                  ("each_sub_filter_is_its_record", "all(" + _XLOADED.format(S=_XSTRIDE) + " for q in range(0, size))")],
+         loops={0: {"invariant": [
+             ("count", "len(self._blooms) == _i"),
+             ("record_size", "blm_size == (0 if _i == 0 else eb_cells(self))"),
+             ("position", f"start == smul(_i, {_XSTRIDE})"),
+             ("records_so_far", "all(" + _XLOADED.format(S=_XSTRIDE) + " for q in range(0, _i))")]}})
+
+# the footer of b describes a usable geometry and b holds as many records as it says
+_XFOOT = ("le_bytes(b, len(b) - 20, 8) >= 1 and 0 < f32_at(b, len(b) - 4) < 1 and "
+          "bloom_k(le_bytes(b, len(b) - 20, 8), bloom_m(le_bytes(b, len(b) - 20, 8), f32_at(b, len(b) - 4))) >= 1 and "
+          "bloom_m(le_bytes(b, len(b) - 20, 8), f32_at(b, len(b) - 4)) < 2**53")
+_XRECS = ("len(b) >= 28 + smul(le_bytes(b, len(b) - 28, 8), "
+          "cdiv(bloom_m(le_bytes(b, len(b) - 20, 8), f32_at(b, len(b) - 4)), 8) + 8)")
+_XRES = [("number_of_sub_filters", "len(result._blooms) == le_bytes(b, len(b) - 28, 8)"),
+         ("estimated_elements", "eb_est(result) == le_bytes(b, len(b) - 20, 8)"),
+         ("elements_added", "result._added_elements == le_bytes(b, len(b) - 12, 8)"),
+         ("rate", "eb_fpr(result) == f32_at(b, len(b) - 4)"),
+         ("hash_function_kept_or_default", "eb_hf(result) == (hash_function if hash_function is not None else default_fnv_1a)"),
+         ("each_sub_filter_is_its_record",
+          "all(" + _XLOADED.format(S="(eb_cells(result) + 8)").replace("self", "result") + " for q in range(0, len(result._blooms)))")]
+contract("ExpandingBloomFilter.frombytes", kind="classmethod", contexts=["ExpandingBloomFilter"], properties=["C05", "C01", "C09"],
+         params={"b": "bytes", "hash_function": "opt[hashfunc]"}, returns="obj:ExpandingBloomFilter",
+         requires=[("has_footer", "len(b) >= 28"), ("stored_geometry_usable", _XFOOT), ("records_present", _XRECS)],
+         modifies=[], ensures=_XRES)
+
+# the body of ExpandingBloomFilter.__init__ reached through super().__init__ with a rotating receiver, and the rotating
+# constructor / loader
+clone_contract("ExpandingBloomFilter.__init__", "ExpandingBloomFilter.__init__@RotatingBloomFilter", contexts=["RotatingBloomFilter"],
+               properties=["C10", "C05"])
+contract("RotatingBloomFilter.__init__", contexts=["RotatingBloomFilter"], properties=["C10", "C05"],
+         params={"est_elements": "opt[int]", "false_positive_rate": "opt[float]", "max_queue_size": "int", "filepath": "none",
+                 "hash_function": "opt[hashfunc]"},
+         let=[("e0", "est_elements if est_elements is not None else 100"),
+              ("p0", "false_positive_rate if false_positive_rate is not None else 0.0")],
+         requires=[("usable_geometry", "e0 >= 1 and 0 < f32(p0) < 1 and 0 <= p0 < 1 and bloom_k(e0, bloom_m(e0, f32(p0))) >= 1 and "
+                                       "bloom_m(e0, f32(p0)) < 2**53")],
+         modifies=["self"],
+         ensures=[("one_empty_sub_filter", "len(self._blooms) == 1 and " + _NEWEST_FRESH),
+                  ("parameters", "eb_est(self) == e0 and eb_fpr(self) == p0 and self._added_elements == 0 and "
+                                 "eb_hf(self) == (hash_function if hash_function is not None else default_fnv_1a)"),
+                  ("queue_limit_recorded", "self._queue_size == max_queue_size"),
+                  ("inv", "inv_exp(self)")])
+contract("RotatingBloomFilter.frombytes", kind="classmethod", contexts=["RotatingBloomFilter"], properties=["C05", "C10", "C01"],
+         params={"b": "bytes", "max_queue_size": "int", "hash_function": "opt[hashfunc]"}, returns="obj:RotatingBloomFilter",
+         requires=[("has_footer", "len(b) >= 28"), ("stored_geometry_usable", _XFOOT), ("records_present", _XRECS)],
+         modifies=[], ensures=_XRES + [("queue_limit_is_the_resupplied_one", "result._queue_size == max_queue_size")])
+
+import re as _re  # noqa: E402
+_XF = lambda t: _re.sub(r"\bb\b", "file", t)   # noqa: E731
+contract("ExpandingBloomFilter.__load", contexts=_XALL, properties=["C05", "C09", "C01"],
+         params={"file": "mmap"},
+         requires=[("has_footer", "len(file) >= 28"), ("stored_geometry_usable", _XF(_XFOOT)), ("records_present", _XF(_XRECS)),
+                   ("stored_rate_is_a_float32", "f32(f32_at(file, len(file) - 4)) == f32_at(file, len(file) - 4)")],
+         modifies=["self._blooms", "self._added_elements", "self._ExpandingBloomFilter__fpr", "self._ExpandingBloomFilter__est_elements"],
+         rebinds=["self._blooms"],
+         ensures=[("number_of_sub_filters", "len(self._blooms) == le_bytes(file, len(file) - 28, 8)"),
+                  ("estimated_elements", "eb_est(self) == le_bytes(file, len(file) - 20, 8)"),
+                  ("elements_added", "self._added_elements == le_bytes(file, len(file) - 12, 8)"),
+                  ("rate", "eb_fpr(self) == f32_at(file, len(file) - 4)"),
+                  ("each_sub_filter_is_its_record",
+                   "all(" + _XF(_XLOADED.format(S=_XSTRIDE)) +
+                   " for q in range(0, len(self._blooms)))")])
